@@ -5,6 +5,7 @@
 package keepclient
 
 import (
+	"fmt"
 	"io"
 	"sort"
 	"strconv"
@@ -90,11 +91,19 @@ func (c *BlockCache) Get(kc *KeepClient, locator string) ([]byte, error) {
 			rdr, size, _, err := kc.Get(locator)
 			var data []byte
 			if err == nil {
-				data = make([]byte, size, bufsize)
-				_, err = io.ReadFull(rdr, data)
-				err2 := rdr.Close()
-				if err == nil {
-					err = err2
+				if size > int64(bufsize) {
+					// Response is bigger than the
+					// locator's size hint (or the
+					// maximum block size) allows.
+					rdr.Close()
+					err = fmt.Errorf("error reading %q: response size %d exceeds expected size %d", locator, size, bufsize)
+				} else {
+					data = make([]byte, size, bufsize)
+					_, err = io.ReadFull(rdr, data)
+					err2 := rdr.Close()
+					if err == nil {
+						err = err2
+					}
 				}
 			}
 			c.mtx.Lock()
